@@ -2,7 +2,7 @@ SPECIFICATION Spec
 CONSTANTS
   Mode = "trait"
   MaxLen = 2
-  RepChoices = {{}, {"vars"}}
+  RepChoices = {{}, {"vars"}, {"update"}}
   OwnChoices = {{}, {"vars"}, {"update"}}
   TNames = {"from_owned", "try_from_owned"}
 INVARIANTS FoldOk Emit
